@@ -99,10 +99,15 @@ func StartPortHost(dir string, port int, host string, extra ...string) (*Server,
 		c, err := Dial(port)
 		if err == nil {
 			v, err := c.Do("PING")
-			c.Close()
 			if err == nil && v.Str == "PONG" {
-				return s, nil
+				// PING is answered while the AOF is still loading; wait for a gated command
+				w, err := c.Do("TYPE", "__verif_ready__")
+				if err == nil && !(w.Kind == '-' && strings.Contains(w.Str, "LOADING")) {
+					c.Close()
+					return s, nil
+				}
 			}
+			c.Close()
 		}
 		time.Sleep(15 * time.Millisecond)
 	}
